@@ -207,6 +207,26 @@ def run(ctx):
     diff_tie(ctx, "fgbuf-seq", exe, ["seq"], "buf", cases, oracle=seq_oracle, describe=sdescribe, bucket=lambda c: "seq %s" % KN[c[0]])
     ctx.rules.append("fgbuf-prio (oracle only): the same scripts on priority_queue_node: try_get / try_reserve give the largest buffered item, reservation protocol, conservation")
     oracle_tie(ctx, "fgbuf-prio", exe, ["seq"], gen_seq(ctx, ctx.scale(150, 2000), kinds=(3,)), seq_oracle, describe=sdescribe, bucket=lambda c: "seq prio")
+    # limiter_node counters, op by op, against LimModel
+    lrng = ctx.rng
+    lcases = []
+    for _ in range(ctx.scale(200, 5000)):
+        th = lrng.choice([1, 1, 2, 3, 4, 6])
+        c = [th]
+        for _ in range(lrng.randint(2, 14)):
+            r_ = lrng.random()
+            if r_ < 0.55:
+                c += [1, 0]
+                for _ in range(lrng.choice([0, 0, 1, 1, 2])):
+                    c += [4, lrng.randint(1, th + 2)]
+                c += [3 if lrng.random() < 0.15 else 2, 0]
+            else:
+                c += [4, lrng.randint(1, th + 2)]
+        lcases.append(c)
+    ctx.rules.append("limiter-seq: limiter_node<int,int> (threshold 1-6) with a scripted successor: puts, integral decrements 1..threshold+2 between puts and from inside a put, successor accepting or "
+                     "rejecting; result, my_count, my_tries, my_future_decrement after every operation compared with LimModel")
+    diff_tie(ctx, "limiter-seq", exe, ["limseq"], "lim", lcases, describe=lambda c: "limiter_node<int,int>(threshold %d): %s" % (c[0], " ".join(
+        {1: "put[", 2: "]accepted", 3: "]rejected", 4: "decrement(%d)" % c[i + 1]}.get(c[i], "?") for i in range(1, len(c) - 1, 2))), bucket=lambda c: "limiter th=%d" % c[0])
     # real threads
     runs = []
     for r in range(ctx.scale(6, 60)):
@@ -240,6 +260,8 @@ def replay(ctx, rep):
     exe, err = ctx.build_driver("drv_fgbuf", libs=[lib])
     if rep.get("tie") == "fgbuf-seq":
         diff_tie(ctx, "fgbuf-seq", exe, ["seq"], "buf", [rep["case"]], oracle=seq_oracle, describe=sdescribe)
+    elif rep.get("tie") == "limiter-seq":
+        diff_tie(ctx, "limiter-seq", exe, ["limseq"], "lim", [rep["case"]])
     elif rep.get("tie") == "fgbuf-prio":
         oracle_tie(ctx, "fgbuf-prio", exe, ["seq"], [rep["case"]], seq_oracle, describe=sdescribe)
     else:
